@@ -47,6 +47,21 @@
  * @param[in] d
  * @return HTP_OK on success, HTP_ERROR on failure.
  */
+/**
+ * After a failure part-way through handing parameters over to the transaction:
+ * the first count name/value pairs belong to the transaction now, and must
+ * not be freed again together with the parser's table.
+ *
+ * @param[in] params
+ * @param[in] count
+ */
+static void htp_ch_urlencoded_disown_params(htp_table_t *params, size_t count) {
+    for (size_t i = 0; i < count; i++) {
+        htp_list_replace(&params->list, i * 2, NULL);
+        htp_list_replace(&params->list, i * 2 + 1, NULL);
+    }
+}
+
 htp_status_t htp_ch_urlencoded_callback_request_body_data(htp_tx_data_t *d) {
     htp_tx_t *tx = d->tx;
 
@@ -68,7 +83,10 @@ htp_status_t htp_ch_urlencoded_callback_request_body_data(htp_tx_data_t *d) {
             value = htp_table_get_index(tx->request_urlenp_body->params, i, &name);
 
             htp_param_t *param = calloc(1, sizeof (htp_param_t));
-            if (param == NULL) return HTP_ERROR;
+            if (param == NULL) {
+                htp_ch_urlencoded_disown_params(tx->request_urlenp_body->params, i);
+                return HTP_ERROR;
+            }
 
             param->name = name;
             param->value = value;
@@ -78,6 +96,7 @@ htp_status_t htp_ch_urlencoded_callback_request_body_data(htp_tx_data_t *d) {
 
             if (htp_tx_req_add_param(tx, param) != HTP_OK) {
                 free(param);
+                htp_ch_urlencoded_disown_params(tx->request_urlenp_body->params, i);
                 return HTP_ERROR;
             }
         }
@@ -158,7 +177,10 @@ htp_status_t htp_ch_urlencoded_callback_request_line(htp_tx_t *tx) {
         value = htp_table_get_index(tx->request_urlenp_query->params, i, &name);
 
         htp_param_t *param = calloc(1, sizeof (htp_param_t));
-        if (param == NULL) return HTP_ERROR;
+        if (param == NULL) {
+            htp_ch_urlencoded_disown_params(tx->request_urlenp_query->params, i);
+            return HTP_ERROR;
+        }
         
         param->name = name;
         param->value = value;
@@ -168,6 +190,7 @@ htp_status_t htp_ch_urlencoded_callback_request_line(htp_tx_t *tx) {
 
         if (htp_tx_req_add_param(tx, param) != HTP_OK) {
             free(param);
+            htp_ch_urlencoded_disown_params(tx->request_urlenp_query->params, i);
             return HTP_ERROR;
         }
     }
